@@ -285,6 +285,72 @@ def main():
     w("def msgExpectedToken : String := %s" % lean_str(synerr["ExpectedToken"]))
     w("def msgUnexpectedEndOfInput : String := %s" % lean_str(synerr["UnexpectedEndOfInput"]))
     w("")
+    # --- structure of the two expression walkers and the two statement dispatchers
+    ops_src = read("abasic-core/src/operators.rs")
+    from_token = {}
+    for im in re.finditer(r"impl (\w+) \{(.*?)\n\}", ops_src, re.S):
+        fm = re.search(r"pub fn from_token\(token: Token\) -> Option<Self> \{(.*?)\n    \}", im.group(2), re.S)
+        if fm:
+            from_token[im.group(1)] = re.findall(r"Token::(\w+)\s*=>\s*Some\(", fm.group(1))
+    need(from_token.get("UnaryOp"), "operators.rs: UnaryOp::from_token")
+
+    def walker(rel, what):
+        src = read(rel)
+        fns = {}
+        for fm in re.finditer(r"\n    (?:pub )?fn (evaluate_\w+)\b.*?\{(.*?)\n    \}", src, re.S):
+            fns[fm.group(1)] = fm.group(2)
+        entry = need(re.search(r"self\.(evaluate_\w+_expression)\(\)", fns.get("evaluate_expression", "")), what + ": evaluate_expression body")
+        chain, cur, unary = [], entry.group(1), None
+        for _ in range(12):
+            body = need(fns.get(cur), what + ": fn " + cur)
+            operand = need(re.search(r"self\.(evaluate_\w+)\(\)", body), what + ": operand of " + cur).group(1)
+            a = re.search(r"while self\s*\.program(?:\(\))?\s*\.accept_next_token\(Token::(\w+)\)", body)
+            t = re.search(r"while let Some\(\w+\) = self\s*\.program(?:\(\))?\s*\.try_next_token\((\w+)::from_token\)", body)
+            u = re.search(r"let \w+ = self\s*\.program(?:\(\))?\s*\.try_next_token\((\w+)::from_token\)", body)
+            if a:
+                chain.append([a.group(1)])
+            elif t:
+                chain.append(need(from_token.get(t.group(1)), "operators.rs: %s::from_token" % t.group(1)))
+            elif u and not t:
+                unary = need(from_token.get(u.group(1)), "operators.rs: %s::from_token" % u.group(1))
+                break
+            else:
+                raise Missing(what + ": cannot classify tier function " + cur)
+            cur = operand
+        need(unary, what + ": unary tier")
+        return chain, unary
+
+    ev_chain, ev_unary = walker("abasic-core/src/expression.rs", "expression.rs")
+    an_chain, an_unary = walker("abasic-core/src/analyzer/expression_analyzer.rs", "expression_analyzer.rs")
+
+    def dispatch(rel, fn, what):
+        src = read(rel)
+        fm = need(re.search(r"fn %s\b.*?match self\s*\.program(?:\(\))?\s*\.next_token\(\) \{(.*?)\n        \}" % fn, src, re.S), what)
+        heads = []
+        for arm in re.finditer(r"\n            (Some\([^=]*?)=>", fm.group(1)):
+            heads += re.findall(r"Token::(\w+)", arm.group(1))
+        need(heads, what + ": arms")
+        return heads
+
+    ev_disp = dispatch("abasic-core/src/statement.rs", "evaluate_statement", "statement.rs: evaluate_statement dispatch")
+    an_disp = dispatch("abasic-core/src/analyzer/statement_analyzer.rs", "evaluate_statement", "statement_analyzer.rs: evaluate_statement dispatch")
+    kwset = set(variants)
+
+    def kws(lst):
+        return "[%s]" % ", ".join("." + k for k in lst)
+
+    w("/-- expression.rs: the binary tiers from `evaluate_expression` inwards (operator tokens each loop accepts), then the unary tier. -/")
+    w("def evalChain : List (List Kw) := [%s]" % ", ".join(kws(t) for t in ev_chain))
+    w("def evalUnary : List Kw := %s" % kws(ev_unary))
+    w("/-- analyzer/expression_analyzer.rs: the same structure of the analyzer's fork. -/")
+    w("def anaChain : List (List Kw) := [%s]" % ", ".join(kws(t) for t in an_chain))
+    w("def anaUnary : List Kw := %s" % kws(an_unary))
+    w("/-- statement.rs / analyzer/statement_analyzer.rs: the keyword tokens `evaluate_statement` dispatches on, and the payload tokens. -/")
+    w("def evalStmtKws : List Kw := %s" % kws([k for k in ev_disp if k in kwset]))
+    w("def evalStmtOther : List String := [%s]" % ", ".join(lean_str(k) for k in ev_disp if k not in kwset))
+    w("def anaStmtKws : List Kw := %s" % kws([k for k in an_disp if k in kwset]))
+    w("def anaStmtOther : List String := [%s]" % ", ".join(lean_str(k) for k in an_disp if k not in kwset))
+    w("")
     w("end Extracted")
     w("end Abasic")
     text = "\n".join(L) + "\n"
